@@ -5,9 +5,7 @@
    * Closure / MakeHeapClosure: the function index sits in a register known to hold a CONSTANT that is a valid index;
    * CallCls / CallIndirect: the callee register and the argument words are readable; nothing is known about the
      callee (that is checked at run time by the instrumented semantics: DynSignature, DynReentry);
-   * GetUpValue(d, i): i < number of upindexes of the running function; the write must not GROW the stack before the
-     source is read (d + size within the written registers, or one word at most at the top): the real VM reads an open
-     upvalue through a slice into the stack that set_vec_range may reallocate (UnsupStackAlias);
+   * GetUpValue(d, i): i < number of upindexes of the running function;
    * SetUpValue(i, s, n): i < number of upindexes, n words readable;
    * Close / CloseHeapClosure / CloneHeap / Box*: operands readable;
    * Call: the callee expects no upvalues (it is entered without a closure);
@@ -48,9 +46,7 @@ Definition xflow (p : program) (f : fn) (pc : N) (a : astate) (o : xop) : option
       if rdok a fr 1 && ((nargs =? 0) || (fr + 1 + nargs <=? a_h a)) then next1 pc (acall a fr nret) else None
   | XGetUp d i =>
       match rd1 (f_up f) i with
-      | Some u =>
-          if ((d + u_size u <=? a_h a) && (1 <=? a_h a)) || ((u_size u =? 1) && (d <=? a_h a))
-          then next1 pc (awrite a d (u_size u)) else None
+      | Some u => next1 pc (awrite a d (u_size u))
       | None => None
       end
   | XSetUp i s n =>
